@@ -37,3 +37,34 @@ Fixpoint vals_ints (l : list val) : option (list Z) :=
 
 (* VL [VErr] marks "bad arguments": a harness bug, never a model result *)
 Definition bad_args : val := VL [VErr; VErr].
+
+(* ---- used by the extraction self-check (cases evaluated with vm_compute inside Coq) ---- *)
+Fixpoint val_eqb (a b : val) : bool :=
+  match a, b with
+  | VI x, VI y => x =? y
+  | VB x, VB y => beq x y
+  | VErr, VErr => true
+  | VL x, VL y =>
+      (fix go (l1 l2 : list val) : bool :=
+         match l1, l2 with
+         | [], [] => true
+         | u :: l1', v :: l2' => val_eqb u v && go l1' l2'
+         | _, _ => false
+         end) x y
+  | _, _ => false
+  end.
+
+Fixpoint bl_eqb (a b : list bytes) : bool :=
+  match a, b with
+  | [], [] => true
+  | x :: a', y :: b' => beq x y && bl_eqb a' b'
+  | _, _ => false
+  end.
+
+(* an oracle given by the transcript of the calls the extracted driver made *)
+Fixpoint table_oracle (tbl : list (Z * list bytes * bytes)) : oracle :=
+  fun alg args =>
+    match tbl with
+    | [] => []
+    | (a, ar, r) :: rest => if (a =? alg) && bl_eqb ar args then r else table_oracle rest alg args
+    end.
